@@ -440,7 +440,7 @@ def _gen_case(rng, sl, bs, nops, big, scale=1):
 
 def gen(rng, tier):
     cases = []
-    n = 1000 if tier == "quick" else 30000
+    n = 1000 if tier == "quick" else 20000
     for _ in range(n):
         sl = rng.choice([1, 2, 3, 4, 5, 8])
         bs = rng.choice([0, 1, 2, 3, 4, 6, 9])
